@@ -871,3 +871,201 @@ pub fn gen_history(rng: &mut Rng) -> AliasCase {
     }
     AliasCase { src: s, class: "history:reads-and-spawns-on-one-thread", expected, model: None }
 }
+
+// ------------------------------------------------------------------ every constructor at every nesting position
+// value = wrap_n(… wrap_1(leaf)): container kinds {struct field, tuple component, array element, variant payload,
+// closure capture} over leaves {array<int> (mutable), string, channel<int>}, depth up to 3; transported into the task
+// either as a capture or as a channel message.  The innermost mutable object is mutated on both sides.
+
+#[derive(Clone, Copy, PartialEq, Debug)]
+pub enum Wrap {
+    Struct,
+    Tuple,
+    ArrOf,
+    Opt,
+    Closure,
+}
+pub const ALL_WRAPS: [Wrap; 5] = [Wrap::Struct, Wrap::Tuple, Wrap::ArrOf, Wrap::Opt, Wrap::Closure];
+
+#[derive(Clone, Copy, PartialEq, Debug)]
+pub enum Leaf {
+    Arr,
+    Str,
+    Chan,
+}
+
+pub const NEST_HELPERS: &str = r#"fn snd(p: (int, T)) -> T {
+  let (a, b) = p
+  b
+}
+fn get(o: option<T>) -> T {
+  match o {
+    .some(x) -> x
+    .none -> panic("none")
+  }
+}
+fn call0(f: int -> T) -> T {
+  f(0)
+}
+"#;
+
+pub struct NestCase {
+    pub src: String,
+    pub class: String,
+    pub expected: Vec<String>,
+    /// model request and whether its answer carries the " owned" suffix (`heapalias`) or not (`heapsend`)
+    pub model: Option<(String, bool)>,
+}
+
+/// `wraps[0]` is the innermost container
+pub fn gen_nested(rng: &mut Rng, leaf: Leaf, wraps: &[Wrap], as_message: bool) -> NestCase {
+    let a = rng.range(0, 99);
+    let b = rng.range(0, 99);
+    let k = rng.range(100, 199);
+    let k2 = rng.range(200, 299);
+    let mut decls = String::new();
+    let mut lets = String::new();
+    let (mut ty, mut sx) = match leaf {
+        Leaf::Arr => {
+            lets.push_str(&format!("let v0 = [{a}, {b}]\n"));
+            ("array<int>".to_string(), format!("(A {a} {b})"))
+        }
+        Leaf::Str => {
+            lets.push_str(&format!("let v0 = \"s{a}\"\n"));
+            ("string".to_string(), format!("'s{a}'"))
+        }
+        Leaf::Chan => {
+            lets.push_str("let v0: channel<int> = channel()\n");
+            ("channel<int>".to_string(), String::new())
+        }
+    };
+    // accessor from the outermost value down to the leaf, and the model's slot path
+    let mut accs: Vec<Box<dyn Fn(String) -> String>> = vec![];
+    let mut slots: Vec<usize> = vec![];
+    for (i, w) in wraps.iter().enumerate() {
+        let prev = format!("v{i}");
+        let cur = format!("v{}", i + 1);
+        let n = rng.range(1, 9);
+        match w {
+            Wrap::Struct => {
+                let name = format!("Wx{}", (b'a' + i as u8) as char);
+                decls.push_str(&format!("type {name} = {{\n  n: int\n  x: {ty}\n}}\n"));
+                lets.push_str(&format!("let {cur} = {name}({n}, {prev})\n"));
+                ty = name;
+                sx = format!("(S {n} {sx})");
+                accs.push(Box::new(|e| format!("{e}.x")));
+                slots.push(1);
+            }
+            Wrap::Tuple => {
+                lets.push_str(&format!("let {cur} = ({n}, {prev})\n"));
+                ty = format!("(int, {ty})");
+                sx = format!("(S {n} {sx})");
+                accs.push(Box::new(|e| format!("snd({e})")));
+                slots.push(1);
+            }
+            Wrap::ArrOf => {
+                lets.push_str(&format!("let {cur} = [{prev}]\n"));
+                ty = format!("array<{ty}>");
+                sx = format!("(A {sx})");
+                accs.push(Box::new(|e| format!("{e}[0]")));
+                slots.push(0);
+            }
+            Wrap::Opt => {
+                lets.push_str(&format!("let {cur} = option.some({prev})\n"));
+                ty = format!("option<{ty}>");
+                sx = format!("(V 0 {sx})");
+                accs.push(Box::new(|e| format!("get({e})")));
+                slots.push(0);
+            }
+            Wrap::Closure => {
+                lets.push_str(&format!("let {cur}: int -> {ty} = z -> {prev}\n"));
+                ty = format!("int -> {ty}");
+                sx = format!("(S 0 {sx})");
+                accs.push(Box::new(|e| format!("call0({e})")));
+                slots.push(1);
+            }
+        }
+    }
+    let top = format!("v{}", wraps.len());
+    let acc = |root: &str| -> String {
+        let mut e = root.to_string();
+        for f in accs.iter().rev() {
+            e = f(e);
+        }
+        e
+    };
+    let path = {
+        let mut p = vec!["0".to_string()];
+        p.extend(slots.iter().rev().map(|s| s.to_string()));
+        p.join(".")
+    };
+    let mut s = String::from(DECLS);
+    s.push_str(NEST_HELPERS);
+    s.push_str(&decls);
+    s.push_str("let out: channel<string> = channel()\nlet go: channel<bool> = channel()\n");
+    if as_message {
+        s.push_str(&format!("let c: channel<{ty}> = channel()\n"));
+    }
+    s.push_str(&lets);
+    let troot = if as_message { "x".to_string() } else { top.clone() };
+    let tacc = acc(&troot);
+    let macc = acc(&top);
+    let recv = if as_message { "  let x = c.read()\n" } else { "" };
+    let send = if as_message { format!("c.write({top})\n") } else { String::new() };
+    let (expected, ops): (Vec<String>, Option<String>) = match leaf {
+        Leaf::Arr => {
+            s.push_str(&format!(
+                "task {{\n{recv}  {tacc}.push({k})\n  let s1 = show_arrint({tacc})\n  out.write(s1)\n  go.read()\n  let s2 = show_arrint({tacc})\n  out.write(s2)\n}}\n{send}let r0 = out.read()\n{macc}.push({k2})\ngo.write(true)\nlet r1 = out.read()\nprintln(r0)\nprintln(r1)\nprintln(show_arrint(v0))\n"
+            ));
+            (
+                vec![format!("(A {a} {b} {k})"), format!("(A {a} {b} {k})"), format!("(A {a} {b} {k2})")],
+                Some(format!("T push {path} {k} ; T show {path} ; M push {path} {k2} ; T show {path} ; M show {path}")),
+            )
+        }
+        Leaf::Str => {
+            s.push_str(&format!(
+                "task {{\n{recv}  let s1 = show_str({tacc})\n  out.write(s1)\n}}\n{send}let r0 = out.read()\nprintln(r0)\nprintln(show_str({macc}))\n"
+            ));
+            (vec![format!("'s{a}'"), format!("'s{a}'")], Some(format!("T show {path} ; M show {path}")))
+        }
+        Leaf::Chan => {
+            // a channel is shared: what the task writes through its copy of the handle arrives at the spawner's
+            s.push_str(&format!(
+                "task {{\n{recv}  {tacc}.write({k})\n  {tacc}.write({})\n}}\n{send}println(v0.read())\nprintln({macc}.read())\n",
+                k + 1
+            ));
+            (vec![format!("{k}"), format!("{}", k + 1)], None)
+        }
+    };
+    let model = ops.map(|ops| {
+        if as_message { (format!("heapsend {sx} | W 0 ; R ; {ops}"), false) } else { (format!("heapalias {sx} | {ops}"), true) }
+    });
+    let class = format!(
+        "nest{}:{}:{}",
+        if as_message { "-msg" } else { "" },
+        wraps.iter().rev().map(|w| format!("{w:?}")).collect::<Vec<_>>().join(">"),
+        format!("{leaf:?}")
+    );
+    NestCase { src: s, class, expected, model }
+}
+
+/// the grid: every container over every leaf; every pair of containers over the mutable leaf; random triples
+pub fn nested_grid(rng: &mut Rng, n_depth3: usize, as_message: bool) -> Vec<NestCase> {
+    let mut v = vec![];
+    for w in ALL_WRAPS {
+        for l in [Leaf::Arr, Leaf::Str, Leaf::Chan] {
+            v.push(gen_nested(rng, l, &[w], as_message));
+        }
+    }
+    for inner in ALL_WRAPS {
+        for outer in ALL_WRAPS {
+            v.push(gen_nested(rng, Leaf::Arr, &[inner, outer], as_message));
+        }
+    }
+    for _ in 0..n_depth3 {
+        let ws = [*rng.pick(&ALL_WRAPS), *rng.pick(&ALL_WRAPS), *rng.pick(&ALL_WRAPS)];
+        let l = *rng.pick(&[Leaf::Arr, Leaf::Arr, Leaf::Str, Leaf::Chan]);
+        v.push(gen_nested(rng, l, &ws, as_message));
+    }
+    v
+}
